@@ -57,3 +57,25 @@ func H_C17_len_pq() {
 		vAssert("C17.len.pq-exact-at-rest", q.Len() == 1)
 	})
 }
+
+// Purge racing with Enqueue: at rest Len() equals the number of items that can actually be dequeued.
+func H_C17_purge_vs_enqueue() {
+	initialBufferCapacity = 2
+	chunkMaxCapacity = 3
+	q := NewQueue[int]()
+	q.Enqueue(1)
+	go func() { q.Purge() }()
+	go func() { q.Enqueue(9) }()
+	vAtQuiescence(func() {
+		vReach("C17.purge-enq.quiescent")
+		n := q.Len()
+		c := 0
+		for i := 0; i < 3; i++ {
+			if _, ok := q.Dequeue(); ok {
+				c++
+			}
+		}
+		vAssert("C17.len-exact-after-purge-race", n == c && n >= 0)
+		vAssert("C17.len-zero-after-drain", q.Len() == 0)
+	})
+}
